@@ -56,6 +56,10 @@ pub enum PState {
     Idle,
     Exhausted,
     Closed,
+    /// max_size 2 shrunk to 1 while one object is checked out and another
+    /// get() is stuck in create: one permit is owed. The stuck call can be
+    /// abandoned and the holder can return its object, in any order.
+    Owed,
 }
 
 #[derive(Clone, Debug)]
@@ -87,7 +91,7 @@ fn c10(w: &mut World, key: &str, msg: String) {
 }
 
 async fn run_inner(sc: &TimeScenario) -> Outcome {
-    let mut cfg = PoolCfg::simple(1);
+    let mut cfg = PoolCfg::simple(if sc.state == PState::Owed { 2 } else { 1 });
     cfg.create_menu = vec![Out::Ok, Out::Err, Out::PendOk, Out::Never];
     cfg.recycle_menu = vec![Out::Ok, Out::Err, Out::PendOk, Out::Never];
     cfg.auto_gates = false;
@@ -146,7 +150,7 @@ async fn run_inner(sc: &TimeScenario) -> Outcome {
     });
     let nb = Timeouts { wait: Some(Duration::ZERO), create: None, recycle: None };
     let mut holder: Option<usize> = None;
-    if matches!(sc.state, PState::Idle | PState::Exhausted) {
+    if matches!(sc.state, PState::Idle | PState::Exhausted | PState::Owed) {
         let gi = w(|w| w.begin_get(PROBE, true));
         let p = pool.clone();
         let mut t = Task::new(async move { p.timeout_get(&nb).await });
@@ -164,6 +168,25 @@ async fn run_inner(sc: &TimeScenario) -> Outcome {
         w.forced_ok = false;
         w.seq_actor = None;
     });
+    // Owed: a second call gets stuck in create, then the pool shrinks to 1
+    let mut stuck: Option<(usize, Task<Result<Object<Mgr>, PoolError<MErr>>>)> = None;
+    if sc.state == PState::Owed {
+        let saved_menu = w(|w| std::mem::replace(&mut w.cfg.create_menu, vec![Out::Never]));
+        let g0 = w(|w| w.begin_get(2, false));
+        let p = pool.clone();
+        let mut t0: Task<Result<Object<Mgr>, PoolError<MErr>>> = Task::new(async move { p.timeout_get(&Timeouts::new()).await });
+        w(|w| w.seq_actor = Some(2));
+        if t0.poll().is_some() {
+            panic!("setup: stuck get completed");
+        }
+        w(|w| {
+            w.seq_actor = Some(900);
+            w.cfg.create_menu = saved_menu;
+        });
+        op_resize(900, &pool, 1);
+        w(|w| w.seq_actor = None);
+        stuck = Some((g0, t0));
+    }
     if sc.state == PState::Closed {
         w(|w| w.seq_actor = Some(900));
         op_close(900, &pool);
@@ -184,6 +207,7 @@ async fn run_inner(sc: &TimeScenario) -> Outcome {
     });
     let mut now: u64 = 0;
     let mut slot_free_at: Option<u64> = if matches!(sc.state, PState::Empty | PState::Idle) { Some(0) } else { None };
+    let mut deadline_passed_at: Option<u64> = None;
     let mut result: Option<Result<usize, String>> = None;
     let mut done_at: Option<u64> = None;
     let mut first_poll = true;
@@ -243,6 +267,9 @@ async fn run_inner(sc: &TimeScenario) -> Outcome {
         if holder.is_some() {
             opts.push(2);
         }
+        if stuck.is_some() {
+            opts.push(250);
+        }
         let gates: Vec<usize> = sched::pending_gates().into_iter().filter(|(_, l)| l != "never").map(|(g, _)| g).collect();
         for i in 0..gates.len() {
             opts.push(3 + i as u8);
@@ -251,9 +278,28 @@ async fn run_inner(sc: &TimeScenario) -> Outcome {
         explorer::count_step();
         events += 1;
         match opts[k] {
+            250 => {
+                trace!("t={}ms the call stuck in create is abandoned", now);
+                let (g0, mut t0) = stuck.take().unwrap();
+                w(|w| w.seq_actor = Some(2));
+                t0.cancel();
+                w(|w| {
+                    w.seq_actor = None;
+                    w.get_cancelled(g0);
+                    w.end_op(2);
+                });
+                if holder.is_none() {
+                    slot_free_at = Some(now);
+                }
+            }
             0 | 1 => {
                 let d = if opts[k] == 0 { STEP_SMALL } else { STEP_BIG };
                 now += d;
+                if let Some(dl) = eff.0.ms() {
+                    if now >= dl && deadline_passed_at.is_none() {
+                        deadline_passed_at = Some(now);
+                    }
+                }
                 w(|w| w.now = now);
                 trace!("advance to t={}ms", now);
                 tokio::time::advance(Duration::from_millis(d)).await;
@@ -265,7 +311,9 @@ async fn run_inner(sc: &TimeScenario) -> Outcome {
                 while op_release(PROBE) {}
                 w(|w| w.seq_actor = None);
                 holder = None;
-                slot_free_at = Some(now);
+                if stuck.is_none() {
+                    slot_free_at = Some(now);
+                }
             }
             g => {
                 let gid = gates[(g - 3) as usize];
@@ -319,6 +367,11 @@ async fn run_inner(sc: &TimeScenario) -> Outcome {
                     }
                     if tc < d {
                         c10(w, "wait-timeout-early", format!("Timeout(Wait) at t={}ms before the deadline {}ms", tc, d));
+                    }
+                    if let Some(p) = deadline_passed_at {
+                        if tc > p {
+                            c10(w, "wait-timeout-late", format!("Timeout(Wait) reported at t={}ms; the {}ms deadline had passed at t={}ms", tc, d, p));
+                        }
                     }
                 }
             }
@@ -420,6 +473,15 @@ async fn run_inner(sc: &TimeScenario) -> Outcome {
         }
     });
     // wind down: abandon, return, probe capacity (slot released after timeouts)
+    if let Some((g0, mut t0)) = stuck.take() {
+        w(|w| w.seq_actor = Some(2));
+        t0.cancel();
+        w(|w| {
+            w.seq_actor = None;
+            w.get_cancelled(g0);
+            w.end_op(2);
+        });
+    }
     if !task.done() {
         w(|w| w.seq_actor = Some(who));
         task.cancel();
